@@ -54,6 +54,9 @@ type c11Case struct {
 	NoIntroduce     bool `json:"no_introduce,omitempty"`
 	// Update leg
 	IgnoreDev bool `json:"ignore_dev,omitempty"`
+	// Strict disables the oracle-side known-finding class (set in witness files so that a
+	// witness keeps failing while its class is listed).
+	Strict bool `json:"strict,omitempty"`
 }
 
 // Known-finding classes of C11 (narrow predicates over the case; the generator suppresses a
@@ -65,6 +68,43 @@ const (
 	// a soft requirement ("1.2.3") on a version that is not among the known versions
 	clsUpdateSoftUnknown = "c11.update_soft_unknown_version"
 )
+
+// clsPinBelowMovedParent: a patch changes a package X and also a package Y that
+// (transitively, at package level) depends on X. override.patchVulns decides X's override
+// against the graph of an earlier round; when Y moves afterwards X may resolve higher without
+// the pin than with it. The class cannot be decided before running the strategy, so it is
+// honoured in the oracle: the decision for X inside such a patch is skipped and counted.
+const clsPinBelowMovedParent = "c11.override_pin_below_moved_parent"
+
+// descendants is the package-level "depends on, transitively" relation of a universe.
+func descendants(ix *universe.Index) map[string]map[string]bool {
+	direct := map[string]map[string]bool{}
+	for _, p := range ix.Packages {
+		direct[p.Name] = map[string]bool{}
+		for _, v := range p.Versions {
+			for _, d := range v.Deps {
+				direct[p.Name][d.Name] = true
+			}
+		}
+	}
+	out := map[string]map[string]bool{}
+	for _, p := range ix.Packages {
+		seen := map[string]bool{}
+		stack := []string{p.Name}
+		for len(stack) > 0 {
+			n := stack[len(stack)-1]
+			stack = stack[:len(stack)-1]
+			for d := range direct[n] {
+				if !seen[d] {
+					seen[d] = true
+					stack = append(stack, d)
+				}
+			}
+		}
+		out[p.Name] = seen
+	}
+	return out
+}
 
 // selectsKnown reports whether a Maven requirement selects at least one known version.
 func selectsKnown(req string, p *universe.IndexPackage) bool {
@@ -138,15 +178,17 @@ func genC11(driver string, col *ev.Collector) func(*rapid.T) c11Case {
 			if driver == drvMavenOverride {
 				c.MavenManagement = rapid.Bool().Draw(t, "maven_management")
 			}
+			honourRelaxPrerelease(col, "c11", &c.Scenario)
 			honourDepMgmtClass(col, "c11", &c.Manifest)
-			c.MaxUpgrades = rapid.SampledFrom([]int{0, 0, 1, 2}).Draw(t, "max_upgrades")
+			honourDirectVsRange(col, "c11", &c.Scenario)
+			c.MaxUpgrades = []int{0, 0, 1, 2}[universe.IntIn(t, 0, 3, "max_upgrades")]
 			c.NoIntroduce = pct(t, "no_introduce") < 20
 		}
 		return c
 	}
 }
 
-func pct(t *rapid.T, label string) int { return rapid.IntRange(0, 99).Draw(t, label) }
+func pct(t *rapid.T, label string) int { return universe.Pct(t, label) }
 
 func propC11(c c11Case) (ev.Outcome, error) {
 	if c.Driver == drvMavenUpdate {
@@ -180,7 +222,7 @@ func groupsOf(ups []universe.Update) []changeGroup {
 
 func propC11Fix(c c11Case) (ev.Outcome, error) {
 	cls := map[string]bool{}
-	out := func(nt bool) ev.Outcome { return ev.Outcome{NonTrivial: nt, Classes: classes(cls)} }
+	out := func(nt bool) ev.Outcome { return ev.Outcome{NonTrivial: nt, Classes: prefixed(c.Driver, cls)} }
 	budget := c.DefaultBudget()
 	w, err := c.Materialise(budget)
 	if err != nil {
@@ -264,6 +306,7 @@ func propC11Fix(c c11Case) (ev.Outcome, error) {
 	}
 	nontrivial := false
 	ctx := context.Background()
+	desc := descendants(w.Index)
 	type resolved struct {
 		g   *resolve.Graph
 		err error
@@ -343,9 +386,22 @@ func propC11Fix(c c11Case) (ev.Outcome, error) {
 			}
 			// The other changes of the patch, grouped by package.
 			var others []changeGroup
+			underMovedParent := false
 			for _, o := range groups {
 				if o.name != g.name || o.alias != g.alias {
 					others = append(others, o)
+					if desc[o.name][g.name] {
+						underMovedParent = true
+					}
+				}
+			}
+			if underMovedParent {
+				// class c11.override_pin_below_moved_parent: the same patch also changes a package
+				// that (transitively) depends on this one
+				cls["change_under_moved_parent"] = true
+				if col := ev.Get("C11"); !c.Strict && col.IsKnown(clsPinBelowMovedParent) {
+					col.Excluded(clsPinBelowMovedParent)
+					continue
 				}
 			}
 			if len(others) > 4 {
@@ -467,7 +523,7 @@ func contains(xs []int, x int) bool {
 
 func propC11Update(c c11Case) (ev.Outcome, error) {
 	cls := map[string]bool{}
-	out := func(nt bool) ev.Outcome { return ev.Outcome{NonTrivial: nt, Classes: classes(cls)} }
+	out := func(nt bool) ev.Outcome { return ev.Outcome{NonTrivial: nt, Classes: prefixed(c.Driver, cls)} }
 	budget := c.DefaultBudget()
 	w, err := c.Materialise(budget)
 	if err != nil {
